@@ -66,6 +66,13 @@ def gen_direct(rng, infeasible=False, classes=None, plain=False):
         for i in range(n):
             if i not in bools and rng.random() < 0.5:
                 l[i], u[i], x0[i] = l[i] * S_, u[i] * S_, x0[i] * S_
+    if rng.random() < 0.08:
+        # a narrow box far from zero (a tank that is nearly full): bounds that differ by 1e-5 relative are not equal
+        for i in rng.sample([i for i in range(n) if i not in bools] or [None], 1):
+            if i is not None:
+                l[i] = float(rng.choice([2e4, 5e4]))
+                u[i] = l[i] + round(rng.uniform(0.06, 0.19), 3)
+                x0[i] = l[i] + 0.03
     c = [round(rng.uniform(-10, 10), 2) if rng.random() < 0.85 else 0.0 for _ in range(n)]
     inf_side = {}
     if rng.random() < 0.1:
@@ -474,6 +481,10 @@ class Conversation:
         redundant = {i for i in want if l_[i] == u_[i] and l_[i] in (0.0, 1.0)}
         if got != want and set(got) - set(want) == set() and set(want) - set(got) <= redundant:
             self.stats["request_omits_pinned_booleans"] = self.stats.get("request_omits_pinned_booleans", 0) + 1
+        elif got != want and set(got) < set(want):
+            # a relaxation of the problem: legitimate as a request (solve the relaxation first, keep its point if it
+            # happens to satisfy the flags); what is returned in the end is judged against the flags as always
+            self.stats["relaxed_requests"] = self.stats.get("relaxed_requests", 0) + 1
         elif got != want:
             self.viol("request-booleans", "boolean variables in the request %s, flagged in the mapping %s" % (got[:12], want[:12]), "bools")
             return
@@ -902,8 +913,13 @@ class Conversation:
                 self.events.append((tagp, "raise:%s" % type(exc).__name__))
                 self.stats["no_claim"] += 1
             elif not split:
-                rec = ss.log[0] if ss.log else None
-                x = self.check_result(ops[0], res, rec, faults[0] if faults else None, tagp, bools_all[0])
+                # the answer EAO returns stems from its last solve call (an implementation may solve a relaxation first, or
+                # retry); a planned fault that no call consumed was never injected
+                rec = ss.log[-1] if ss.log else None
+                k_last = len(ss.log) - 1
+                if len(ss.log) > 1:
+                    self.stats["several_solve_calls_for_one_optimize"] = self.stats.get("several_solve_calls_for_one_optimize", 0) + 1
+                x = self.check_result(ops[0], res, rec, faults[k_last] if 0 <= k_last < len(faults) else None, tagp, bools_all[0])
                 if x is not None:
                     self.events.append((tagp, canon.digest_canon({"v": float(res.value)}, nd=4)))
                     if target == "robust" and self.samples is not None:
